@@ -56,7 +56,7 @@ func transformLine(line string) string {
 	ok := false
 	verdict := guarded(func() string {
 		var v string
-		analyzed, v, ok = analyzeMods(o.mods)
+		analyzed, v, ok = rpAnalyzeMods(o.mods)
 		return strings.TrimPrefix(v, "A=")
 	})
 	add("A", verdict)
